@@ -253,6 +253,55 @@ def run_input(ctx, i):
             ctx.case(case["m"], case["k"], case["d"], case["noise"], ref["F"], tagf, subset, nontrivial=bool(subset),
                      cls=["formalism:" + tagf, "subset_size:%d" % len(subset)] + ["slot:" + s_ for s_ in subset] + (["positive_only"] if positive else []),
                      sample=lambda: {"objects": desc, "formalism": tagf, "slots": list(subset), "reuses": 3})
+    # the slots filled by the library's own producers (Preloads.set_* from two fits of identical inputs) instead of by hand
+    class FitLike:
+        def __init__(self, inv, ds_):
+            self.inversion, self.dataset, self.noise_map = inv, ds_, ds_.noise_map
+
+    for use_w in (False, True):
+        tagf = "w_tilde" if use_w else "mapping"
+        if tagf not in per_formalism:
+            continue
+        ref = per_formalism[tagf]
+        st = aa.SettingsInversion(use_w_tilde=use_w, use_positive_only_solver=positive, no_regularization_add_to_curvature_diag_value=1e-3)
+        reg_idx = np.concatenate([np.arange(a, b) for (a, b), d in zip(_ranges(objs), desc) if d["regularized"]]).astype(int)
+        A_ = (ref["F"] + ref["H"])[np.ix_(reg_idx, reg_idx)]
+        Hr_ = ref["H"][np.ix_(reg_idx, reg_idx)]
+        tolc = 1e-9 * abs(ref["logdet_c"]) + 1e-14 * len(reg_idx) * float(np.linalg.cond(A_)) + 1e-12
+        tolh = 1e-9 * abs(ref["logdet_h"]) + 1e-14 * len(reg_idx) * float(np.linalg.cond(Hr_)) + 1e-12
+        for prod in ("set_w_tilde_imaging", "set_linear_func_inversion_dicts", "set_curvature_matrix", "set_regularization_matrix_and_term",
+                     "set_operated_mapping_matrix_with_preloads"):
+            if not ctx.begin("inp:%d:%s:producer:%s" % (i, tagf, prod)):
+                continue
+            W = dict(formalism=tagf, filled_by="Preloads." + prod, **W0)
+            try:
+                ds0, ds1 = twin(), twin()
+                f0 = FitLike(aa.Inversion(dataset=ds0, linear_obj_list=objs, settings=st), ds0)
+                f1 = FitLike(aa.Inversion(dataset=ds1, linear_obj_list=objs, settings=st), ds1)
+                pre = aa.Preloads()
+                getattr(pre, prod)(f0, f1)
+            except aa.exc.InversionException:
+                ctx.skipped["producer:InversionException"] += 1
+                continue
+            except Exception as e:
+                # the producer itself failed, so nothing was supplied: outside the statement (observation recorded in DESIGN 7.5:
+                # Preloads.set_curvature_matrix raises IndexError in the mapping formalism when an unregularized object precedes a mapper)
+                ctx.skipped["producer_raised:%s:%s(nothing supplied, not judged)" % (prod, type(e).__name__)] += 1
+                continue
+            filled = sorted(k for k, v in vars(pre).items() if v is not None and v is not False and not (isinstance(v, (list, dict)) and not v))
+            for rep in range(2):
+                try:
+                    q = outputs(aa, aa.Inversion(dataset=twin(), linear_obj_list=objs, settings=st, preloads=pre))
+                except aa.exc.InversionException:
+                    ctx.skipped["producer:InversionException"] += 1
+                    break
+                except Exception as e:
+                    ctx.check(False, "preload.transparent", rep=rep, exception=repr(e)[:300], slots_filled=filled, **W)
+                    break
+                bad = same(ctx, q, ref, tolc, tolh)
+                ctx.check(not bad, "preload.transparent", rep=rep, differing=bad, slots_filled=filled, got={k: q[k] for k in bad[:2]}, expected={k: ref[k] for k in bad[:2]}, **W)
+            ctx.case(case["m"], case["k"], case["d"], tagf, prod, nontrivial=bool(filled), cls=["formalism:" + tagf, "producer:" + prod] + ["producer_filled:" + k for k in filled],
+                     sample=lambda: {"objects": desc, "formalism": tagf, "producer": prod, "slots_filled": filled})
     # the factory's choice changes only performance: values equal across formalisms, and preloads.use_w_tilde selects the same classes
     if len(per_formalism) == 2 and ctx.begin("inp:%d:formalisms" % i):
         a, b = per_formalism["mapping"], per_formalism["w_tilde"]
